@@ -1558,3 +1558,242 @@ Proof.
         rewrite Ek. destruct p; [discriminate|]. discriminate.
       * eapply IH; eauto.
 Qed.
+
+(** ================================================================================
+    build_then_match: the path built from a flat route's segments (the way the table
+    entry is built) with given parameter values matches that route and returns them
+    ================================================================================ *)
+Fixpoint build (f : list pseg) (vals : list bytes) : bytes :=
+  match f with
+  | [] => []
+  | PStatic s :: t => (if needs_sep s then [slash] else []) ++ s ++ build t vals
+  | PParam n :: t | PSplat n :: t =>
+      match vals with
+      | v :: vs => (if needs_sep n then [slash] else []) ++ v ++ build t vs
+      | [] => []
+      end
+  | _ :: t => build t vals
+  end.
+Definition build_path (f : list pseg) (vals : list bytes) : bytes :=
+  match build f vals with [] => [slash] | p => p end.
+
+Fixpoint bindings (f : list pseg) (vals : list bytes) : params :=
+  match f with
+  | [] => []
+  | PParam n :: t | PSplat n :: t =>
+      match vals with v :: vs => (n, v) :: bindings t vs | [] => [] end
+  | _ :: t => bindings t vals
+  end.
+
+(** one value per param/splat; a param value is non-empty and free of '/' *)
+Fixpoint vals_ok (f : list pseg) (vals : list bytes) : Prop :=
+  match f with
+  | [] => vals = []
+  | PParam _ :: t =>
+      match vals with v :: vs => v <> [] /\ has_slash v = false /\ vals_ok t vs | [] => False end
+  | PSplat _ :: t => match vals with _ :: vs => vals_ok t vs | [] => False end
+  | _ :: t => vals_ok t vals
+  end.
+
+Lemma trivial_flat_nil : forall f vals, forallb trivial_pseg f = true ->
+  toks f = [] /\ build f vals = [] /\ bindings f vals = [].
+Proof.
+  induction f as [|x f IH]; intros vals H; [repeat split|].
+  cbn [forallb] in H. apply andb_prop in H. destruct H as [Hx Hf].
+  destruct (IH vals Hf) as (I1 & I2 & I3).
+  destruct x as [[|? ?]| | | |]; try discriminate; unfold toks in *; cbn; auto.
+Qed.
+
+Lemma run_len_app_boundary : forall v r, has_slash v = false -> at_boundary r = true ->
+  run_len (v ++ r) = length v.
+Proof.
+  induction v as [|c v IH]; intros r Hv Hr; cbn [app run_len length].
+  - destruct r as [|d r]; [reflexivity|]. cbn [at_boundary] in Hr. cbn [run_len]. now rewrite Hr.
+  - cbn [has_slash existsb] in Hv. apply orb_false_iff in Hv. destruct Hv as [Hc Hv].
+    rewrite Hc. f_equal. now apply IH.
+Qed.
+
+Lemma is_prefix_app : forall s r, is_prefix s (s ++ r) = true.
+Proof. intros. unfold is_prefix. rewrite firstn_app_len. now apply bytes_eqb_eq. Qed.
+
+Lemma usable_static_split : forall t, usable_core (static_core t) = true ->
+  (if needs_sep t then [slash] else []) ++ t = slash :: static_core t.
+Proof.
+  intros t H. apply usable_core_ne in H. destruct H as [Hne _].
+  destruct t as [|c t]; [now cbn in Hne|]. unfold needs_sep, static_core.
+  destruct (c =? slash) eqn:E; cbn [negb app]; [|reflexivity].
+  apply N.eqb_eq in E. now subst.
+Qed.
+
+Lemma build_spre :
+  forall f vals,
+    existsb is_popt f = false -> wf_flat f = true -> slash_static_flat f = false ->
+    vals_ok f vals ->
+    at_boundary (build f vals) = true
+    /\ spre (toks f) (build f vals) = Some (bindings f vals, []).
+Proof.
+  induction f as [|x f IH]; intros vals Ho Hw Hs Hv; [split; reflexivity|].
+  cbn [existsb] in Ho. apply orb_false_iff in Ho. destruct Ho as [Hx Ho].
+  change (toks (x :: f)) with (seg_toks x ++ toks f).
+  destruct x as [t|n|n|n|]; cbn [is_popt] in Hx; try discriminate.
+  - (* static *)
+    cbn [wf_flat] in Hw. cbn [slash_static_flat] in Hs. cbn [vals_ok] in Hv.
+    apply orb_false_iff in Hs. destruct Hs as [Hs Hrest].
+    apply orb_false_iff in Hs. destruct Hs as [Htl Hsl].
+    cbn [build bindings seg_toks].
+    destruct (bytes_eqb t [slash]) eqn:Et.
+    + apply bytes_eqb_eq in Et. subst t. cbn [andb] in Hsl. apply negb_false_iff in Hsl.
+      destruct (trivial_flat_nil f vals Hsl) as (T1 & T2 & T3). rewrite T1, T2, T3.
+      change (sep [slash]) with (@nil tok).
+      split; [reflexivity|]. cbn. reflexivity.
+    + destruct (IH vals Ho Hw Hrest Hv) as [IHb IHs].
+      destruct t as [|c t0].
+      * cbn [needs_sep app map sep]. split; assumption.
+      * assert (Hu : usable_core (static_core (c :: t0)) = true).
+        { cbn [static_core tl] in *. destruct (c =? slash) eqn:Ec.
+          - destruct t0 as [|c2 t0].
+            + apply N.eqb_eq in Ec. subst c. cbn in Et. discriminate.
+            + unfold usable_core. now rewrite Htl.
+          - unfold usable_core, has_slash. cbn [existsb]. rewrite Ec. cbn [orb].
+            fold (has_slash t0). now rewrite Htl. }
+        pose proof (usable_core_ne _ Hu) as [Hne Hns].
+        rewrite app_assoc, (usable_static_split _ Hu).
+        change (sep (c :: t0) ++ map TChr (c :: t0)) with (seg_toks (PStatic (c :: t0))).
+        rewrite (static_toks_tame _ Hu).
+        split; [cbn [app at_boundary]; apply N.eqb_refl|].
+        change ((TChr slash :: map TChr (static_core (c :: t0))) ++ toks f)
+          with (TChr slash :: map TChr (static_core (c :: t0)) ++ toks f).
+        change ((slash :: static_core (c :: t0)) ++ build f vals)
+          with (slash :: static_core (c :: t0) ++ build f vals).
+        rewrite (spre_slash_lit _ _ _ Hne Hns), is_prefix_app, skipn_app_len. exact IHs.
+  - (* param *)
+    cbn [wf_flat] in Hw. apply andb_prop in Hw. destruct Hw as [Hn Hw].
+    cbn [slash_static_flat] in Hs. cbn [vals_ok] in Hv.
+    destruct vals as [|v vs]; [now elim Hv|]. destruct Hv as (Hvne & Hvs & Hv).
+    destruct (IH vs Ho Hw Hs Hv) as [IHb IHs].
+    cbn [build bindings seg_toks]. rewrite (name_ok_sep _ Hn).
+    unfold name_ok in Hn. rewrite Hn. cbn [app].
+    split; [cbn [at_boundary]; apply N.eqb_refl|].
+    cbn [spre]. rewrite !N.eqb_refl.
+    rewrite (run_len_app_boundary _ _ Hvs IHb).
+    destruct v as [|v0 v]; [now elim Hvne|]. cbn [length].
+    change (S (length v)) with (length (v0 :: v)).
+    rewrite skipn_app_len, firstn_app_len, IHs. reflexivity.
+  - (* splat, last *)
+    cbn [wf_flat] in Hw. apply andb_prop in Hw. destruct Hw as [Hn Hw].
+    destruct f; [|discriminate]. cbn [vals_ok] in Hv.
+    destruct vals as [|v vs]; [now elim Hv|]. subst vs.
+    cbn [build bindings seg_toks]. rewrite (name_ok_sep _ Hn).
+    unfold name_ok in Hn. rewrite Hn. cbn [app]. rewrite app_nil_r.
+    split; [cbn [at_boundary]; apply N.eqb_refl|].
+    unfold toks. cbn [flat_map app spre]. rewrite !N.eqb_refl. reflexivity.
+  - (* unit *)
+    cbn [wf_flat] in Hw. cbn [slash_static_flat] in Hs. cbn [vals_ok] in Hv.
+    cbn [build bindings seg_toks app]. now apply IH.
+Qed.
+
+Lemma build_nil_toks :
+  forall f vals, existsb is_popt f = false -> wf_flat f = true -> vals_ok f vals ->
+    build f vals = [] -> toks f = [].
+Proof.
+  induction f as [|x f IH]; intros vals Ho Hw Hv Eb; [reflexivity|].
+  cbn [existsb] in Ho. apply orb_false_iff in Ho. destruct Ho as [Hx Ho].
+  change (toks (x :: f)) with (seg_toks x ++ toks f).
+  destruct x as [t|n|n|n|]; cbn [is_popt] in Hx; try discriminate.
+  - cbn [build wf_flat vals_ok] in *. destruct t as [|c0 t0].
+    + cbn [needs_sep app] in Eb. cbn [seg_toks sep needs_sep map app]. eapply IH; eauto.
+    + destruct (needs_sep (c0 :: t0)); cbn [app] in Eb; discriminate.
+  - cbn [wf_flat] in Hw. apply andb_prop in Hw. destruct Hw as [Hn _].
+    cbn [vals_ok build] in *. destruct vals as [|v vs]; [now elim Hv|].
+    unfold name_ok in Hn. rewrite Hn in Eb. cbn [app] in Eb. discriminate.
+  - cbn [wf_flat] in Hw. apply andb_prop in Hw. destruct Hw as [Hn _].
+    cbn [vals_ok build] in *. destruct vals as [|v vs]; [now elim Hv|].
+    unfold name_ok in Hn. rewrite Hn in Eb. cbn [app] in Eb. discriminate.
+  - cbn [build wf_flat vals_ok seg_toks app] in *. eapply IH; eauto.
+Qed.
+
+Theorem build_then_match :
+  forall rs f vals p,
+    wf_tree rs = true -> wf_routes rs = true ->
+    gen_routes rs = [f] ->                (* a table with one flat route *)
+    vals_ok f vals -> p = build_path f vals ->
+    known_class None rs p = false ->
+    exists ch, match_route None rs p = MYes ch (bindings f vals).
+Proof.
+  intros rs f vals p Hwt Hwf Hgen Hv Hp Hk.
+  unfold known_class in Hk.
+  apply orb_false_iff in Hk. destruct Hk as [Hk Hds].
+  apply orb_false_iff in Hk. destruct Hk as [Hk Hopt].
+  apply orb_false_iff in Hk. destruct Hk as [Hkb Hss].
+  unfold k_boundary in Hkb. unfold k_slash_static in Hss. rewrite orb_false_r in Hss.
+  unfold k_optional in Hopt.
+  change (fun x : pseg => match x with POpt _ => true | _ => false end) with is_popt in Hopt.
+  assert (Hplain : forallb plain_route rs = true).
+  { unfold gen_routes in Hopt. apply existsb_flat_map_false in Hopt.
+    unfold wf_tree in Hwt. clear -Hopt Hwt.
+    induction rs as [|r rs IH]; [reflexivity|]. cbn [forallb] in *.
+    apply andb_prop in Hwt. destruct Hwt as [Hr Hrs]. inversion Hopt; subst.
+    rewrite plain_from_flat, IH; auto. }
+  pose proof (siblings_chains rs Hplain 0%nat p) as Hsib.
+  (* the single chain *)
+  pose proof (gen_routes_chains rs) as Hgc. rewrite Hgen in Hgc.
+  destruct (chains rs) as [|L [|L2 Ls]] eqn:Ech; try discriminate.
+  cbn [map] in Hgc. injection Hgc as Hf.
+  assert (HinL : In L (chains rs)) by (rewrite Ech; now left).
+  assert (Hin : In f (gen_routes rs)) by (rewrite Hgen; now left).
+  assert (Hfo : existsb is_popt f = false) by (eapply existsb_false_in; eauto).
+  assert (Hfw : wf_flat f = true)
+    by (unfold wf_routes in Hwf; rewrite forallb_forall in Hwf; now apply Hwf).
+  assert (Hfs : slash_static_flat f = false) by (eapply existsb_false_in; eauto).
+  destruct (build_spre f vals Hfo Hfw Hfs Hv) as [Hbb Hbs].
+  (* the path starts with '/' *)
+  assert (Hsl : starts_with_slash p = true).
+  { subst p. unfold build_path. destruct (build f vals) as [|c q]; [reflexivity|exact Hbb]. }
+  assert (Hc : tproj (seqT (map seg_test L) p) = Some (spre (toks (flat_map gen_path L)) p)).
+  { apply (chain_spre (cores_of None rs)).
+    - apply tame_from_flat.
+      + eapply chains_leaves; eauto.
+      + now rewrite <- Hf.
+      + now rewrite <- Hf.
+      + now rewrite <- Hf.
+    - now apply cores_from_flat.
+    - split; [|exact Hkb]. destruct p; [discriminate|exact Hsl]. }
+  rewrite <- Hf in Hc.
+  (* what the pattern binds on the built path *)
+  assert (Hsp : exists r, spre (toks f) p = Some (bindings f vals, r) /\ rem_ok r = true).
+  { subst p. unfold build_path. destruct (build f vals) as [|c q] eqn:Eb.
+    - (* nothing contributed: the path is "/" *)
+      rewrite (build_nil_toks f vals Hfo Hfw Hv Eb) in *.
+      cbn [spre] in Hbs. injection Hbs as Hbn. rewrite <- Hbn.
+      exists [slash]. split; reflexivity.
+    - exists []. split; [exact Hbs|reflexivity]. }
+  destruct Hsp as (r & Hsp & Hr).
+  rewrite Hsp in Hc.
+  unfold match_route, strip_base.
+  cbn [first_chain] in Hsib.
+  destruct (seqT (map seg_test L) p) as [| |m r1 ps1]; cbn [tproj] in Hc; try discriminate.
+  injection Hc as Hps Hr1. subst ps1 r1. rewrite Hr in Hsib.
+  destruct (match_siblings rs 0 p) as [| |ch ps rem]; cbn [oproj] in Hsib; try discriminate.
+  injection Hsib as Hps Hrem. subst ps rem. rewrite Hr. now exists ch.
+Qed.
+
+Example build_then_match_nontrivial :
+  let rs := [Route (SStatic [47;98]) (Some [Route (STuple [SStatic [112]; SParam [105;100]]) None])] in
+  let f := [PStatic [47;98]; PStatic [112]; PParam [105;100]] in
+  gen_routes rs = [f] /\ vals_ok f [[52;50]] /\ build_path f [[52;50]] = [47;98;47;112;47;52;50]
+  /\ known_class None rs (build_path f [[52;50]]) = false
+  /\ match_route None rs (build_path f [[52;50]])
+     = MYes [(0%nat, [47;98]); (1%nat, [47;112;47;52;50])] [([105;100], [52;50])].
+Proof.
+  vm_compute. repeat split; try reflexivity; discriminate.
+Qed.
+
+(* StaticSegment "a/b" does not match the path built from its own table entry /a/b (F-C14-b) *)
+Theorem build_then_match_refuted :
+  exists rs f vals,
+    wf_tree rs = true /\ wf_routes rs = true /\ gen_routes rs = [f] /\ vals_ok f vals
+    /\ match_route None rs (build_path f vals) = MNo.
+Proof.
+  exists [Route (SStatic [97;47;98]) None], [PStatic [97;47;98]], [].
+  vm_compute. repeat split; reflexivity.
+Qed.
